@@ -590,7 +590,9 @@ func (tr *Trace) Ctor(ok bool)               { tr.add(Ev{Kind: "TCtor", Ok: ok})
 func (tr *Trace) CtorPanic(why string)       { tr.add(Ev{Kind: "TCtorPanic", Note: why}) }
 func (tr *Trace) OpBegin(i int, what string) { tr.add(Ev{Kind: "TOpBegin", T: i, Note: what}) }
 func (tr *Trace) OpEnd(i int, res string)    { tr.add(Ev{Kind: "TOpEnd", T: i, Res: res}) }
-func (tr *Trace) CloseCall(t int)            { tr.add(Ev{Kind: "TCloseCall", T: t}) }
+// CloseCall records that Close is being called by thread t; live (what the instance has
+// running at that instant) is kept in the JSON description only.
+func (tr *Trace) CloseCall(t int, live []G) { tr.add(Ev{Kind: "TCloseCall", T: t, Live: live}) }
 func (tr *Trace) CloseRet(t int, live []G)   { tr.add(Ev{Kind: "TCloseRet", T: t, Live: live}) }
 func (tr *Trace) ClosePanic(t int, why string) {
 	tr.add(Ev{Kind: "TClosePanic", T: t, Note: why})
@@ -787,7 +789,7 @@ func (p *Plan) startOp(tr *Trace, i int, o *Op) {
 func (p *Plan) startClose(tr *Trace, t int) {
 	c := &p.closers[t]
 	c.started = true
-	tr.CloseCall(t)
+	tr.CloseCall(t, Live())
 	go func() {
 		defer func() {
 			if e := recover(); e != nil {
